@@ -15,7 +15,8 @@ CMDS = [(['reg'], (), {}), (['reg'], (), {'oldReg': True}), (['reg'], (), {'sing
         (['reg'], (), {'singleFood': 'a'}), (['bal'], (), {}), (['bal'], (), {'collapse': True}), (['bal'], (), {'singleElement': 'calories'}),
         (['report', 'totals'], (), {}), (['report', 'unresolved'], (), {}), (['report', 'quantity'], (), {}), (['report', 'element-total'], ('calories',), {}),
         (['csv', 'log'], (), {}), (['csv', 'database'], (), {}), (['csv', 'database-resolved'], (), {}),
-        (['summary'], ('2021/01/24',), {}), (['print'], (), {}), (['stats'], (), {}), (['lint'], ('food.yaml',), {})]
+        (['summary'], ('2021/01/24',), {}), (['print'], (), {}), (['stats'], (), {}), (['lint'], ('food.yaml',), {}),
+        (['gen', 'man'], (), {}), (['gen', 'markdown'], (), {})]
 
 
 class SinkCase:
